@@ -50,8 +50,12 @@ def proof_gate(prop, cone):
         # count what did compile
         done = 0
         for c in cone:
+            # a compiled file left over from an earlier run does not count: `make -q` says whether it is up to date
+            # with respect to the sources as they are now (regenerated Gen included)
             if os.path.exists(os.path.join(qv.COQ, c[:-2] + '.vo')) and c != f.get('file'):
-                done += qv.count_qed([c])
+                rq, _ = qv.sh('timeout 120 make -q %s' % (c[:-2] + '.vo'), cwd=qv.COQ)
+                if rq == 0:
+                    done += qv.count_qed([c])
         res['discharged'] = done
         return res
     rc, pout = qv.coq_props(prop)
